@@ -490,7 +490,7 @@ def r9(ctx):
     for attr, pos in (("point_labels", 0), ("label_assignment_cost", 1)):
         s = stores.get(attr)
         if s is None:
-            ctx.fail(caller, f"`{attr}` of the new state is not assigned", role=f"handover:{attr}")
+            ctx.unrecognised(caller, f"`{attr}` of the new state is not assigned by a store the rule recognises", role=f"handover:{attr}")
             continue
         v = s.value
         ok = isinstance(v, Idx) and isinstance(v.base, App) and v.base.fn == k.fi.qualname and v.idx == (tm.const(pos),)
